@@ -278,7 +278,7 @@ const MULTI: &[char] = &['√©', '–∂', 'Œª', '√ü', 'Êó•', 'Êú¨', '‚Ç¨', '‰Ωê', 'ü
 const BOUNDARY: &[char] = &[
     '\u{80}', '\u{7ff}', '\u{800}', '\u{ffff}', '\u{10000}', '\u{10ffff}', '\u{7e}', '\u{d7ff}', '\u{e000}', '\u{fffd}',
 ];
-const LETTERS: &[u8] = b"abcdxyz019_.";
+const LETTERS: &[u8] = b"abcdxyz019_.[]~;ADO@";
 const C0_IGNORED: &[u8] = &[0x00, 0x01, 0x02, 0x03, 0x04, 0x07, 0x0b, 0x0c, 0x0e, 0x11, 0x13, 0x18, 0x1a, 0x1c, 0x1f];
 const OUT_TEXTS: &[&str] = &[
     "", "a", "ok", "x\n", "\n", "a\nb", "a\nb\n", "\n\n", "line one\nline two", "√©Êó•\n", "a\r\n", "a\r", "\nb", "\r\nq", "  ", "done.",
@@ -322,7 +322,18 @@ impl<'a> Gen<'a> {
     }
 
     fn key_left(&mut self) {
-        let v = if self.rng.chance(1, 8) { b"\x1b[1D".to_vec() } else { b"\x1b[D".to_vec() };
+        let v = if self.rng.chance(1, 8) {
+            b"\x1b[1D".to_vec()
+        } else if self.rng.chance(1, 40) {
+            let mut v = b"\x1b[".to_vec();
+            for _ in 0..self.rng.range(10, 30) {
+                v.push(b'0' + self.rng.below(10) as u8);
+            }
+            v.push(b'D');
+            v
+        } else {
+            b"\x1b[D".to_vec()
+        };
         self.unit(v);
     }
     fn key_right(&mut self) {
@@ -413,7 +424,22 @@ impl<'a> Gen<'a> {
     fn ill_formed_fragment(&mut self) -> Vec<u8> {
         let r = &mut *self.rng;
         let cont = |r: &mut Rng| 0x80 + r.below(0x40) as u8;
-        match r.below(12) {
+        match r.below(14) {
+            12 | 13 => {
+                // 1..4 high bytes, each from a uniformly drawn class of Unicode table 3-7
+                // (closes the class-sequence table; includes valid sequences)
+                const CLASSES: [(u8, u8); 14] = [
+                    (0x80, 0x8f), (0x90, 0x9f), (0xa0, 0xbf), (0xc0, 0xc1), (0xc2, 0xdf), (0xe0, 0xe0), (0xe1, 0xec),
+                    (0xed, 0xed), (0xee, 0xef), (0xf0, 0xf0), (0xf1, 0xf3), (0xf4, 0xf4), (0xf5, 0xf7), (0xf8, 0xff),
+                ];
+                let n = r.range(1, 4);
+                (0..n)
+                    .map(|_| {
+                        let (lo, hi) = CLASSES[r.below(14)];
+                        lo + r.below((hi - lo) as usize + 1) as u8
+                    })
+                    .collect()
+            }
             0 => vec![0xc0 + r.below(2) as u8, cont(r)],                       // overlong 2-byte
             1 => vec![0xe0, 0x80 + r.below(0x20) as u8, cont(r)],              // overlong 3-byte
             2 => vec![0xf0, 0x80 + r.below(0x10) as u8, cont(r), cont(r)],     // overlong 4-byte
@@ -476,7 +502,21 @@ impl<'a> Gen<'a> {
                 self.unit(enc(c))
             }
             3 => {
-                let c = *self.rng.pick(BOUNDARY);
+                let c = if self.rng.chance(1, 2) {
+                    *self.rng.pick(BOUNDARY)
+                } else {
+                    // any scalar value of a random encoded length
+                    loop {
+                        let v = match self.rng.below(3) {
+                            0 => 0x80 + self.rng.below(0x800 - 0x80) as u32,
+                            1 => 0x800 + self.rng.below(0x10000 - 0x800) as u32,
+                            _ => 0x10000 + self.rng.below(0x110000 - 0x10000) as u32,
+                        };
+                        if let Some(c) = char::from_u32(v) {
+                            break c;
+                        }
+                    }
+                };
                 self.unit(enc(c))
             }
             4 => self.unit(vec![b' ']),
@@ -493,10 +533,12 @@ impl<'a> Gen<'a> {
             15 => {
                 // CSI with an ignored final byte, with and without parameter bytes
                 let mut v = b"\x1b[".to_vec();
-                for _ in 0..self.rng.below(4) {
+                let n = if self.rng.chance(1, 8) { self.rng.range(4, 40) } else { self.rng.below(4) };
+                for _ in 0..n {
                     v.push(0x20 + self.rng.below(0x20) as u8);
                 }
-                let finals = b"@EFGHJKPSTZ^`cfhlmnpqrsu~{|}";
+                // mostly ignored finals, sometimes an arrow behind a long parameter string
+                let finals = b"@EFGHJKPSTZ^`cfhlmnpqrsu~{|}ABCD[\\]_abdegijkotvwxyzIJLMNOQRUVWXY";
                 v.push(*self.rng.pick(finals));
                 self.unit(v)
             }
